@@ -608,6 +608,9 @@ def build_variant(ctx, var, jobs):
         raise vlib.BuildError("library build failed for %s:\n%s" % (desc, out[-2500:]))
     return tree, vlib.get_harness(tree, "plain", "-no-pie" if cfg and "--enable-fat" in cfg else "")     # fat_entry.o uses absolute relocations
 
+# ops whose Lean answer is computed from the DEFAULT build's regenerated tables (they say nothing about another table)
+TABLE_BOUND_OPS = {"mpn_mulmod_bnm1_next_size"}
+
 def other_value_lines(ctx, tree, harness, cap=40000):
     """value-level op lines of the other properties' generators (quick tier), generated against the rebuilt tree: an evenly
     spaced sample of every generator's stream (not its first lines: generators emit one operation family after the other)"""
@@ -622,7 +625,7 @@ def other_value_lines(ctx, tree, harness, cap=40000):
             m = importlib.import_module("props." + name); tg = time.time(); got = []
             for ln in m.gen_ops(random.Random("C14-%s-%d" % (name, ctx.seed)), "quick", c2):
                 op = ln.split(" ", 1)[0]
-                if VALUE_RE.match(op) and op in have and len(ln) < 200000 and not op.endswith("model"): got.append(ln)     # *model ops mirror the DEFAULT table's dispatch
+                if VALUE_RE.match(op) and op in have and len(ln) < 200000 and not op.endswith("model") and op not in TABLE_BOUND_OPS: got.append(ln)     # *model ops mirror the DEFAULT table's dispatch
                 if len(got) >= 60000 or time.time() - tg > 45: break
             byop = collections.defaultdict(list)
             for ln in got: byop[ln.split(" ", 1)[0]].append(ln)
